@@ -157,6 +157,11 @@ class mm_reader {
                 precondition(is >> n >> m >> nnz, format_error());
             }
 
+            // The mirrored entry (j,i) of a symmetric file is only a valid
+            // matrix entry when the matrix is square.
+            precondition(!_symmetric || n == m,
+                    format_error("symmetric matrix should be square"));
+
             if (row_beg < 0) row_beg = 0;
             if (row_end < 0) row_end = n;
 
